@@ -14,13 +14,22 @@ from ..schedsim import draw_world, SimWorld
 
 LEVEL = "exploration"
 DET_ALTS = (525.0, 33.0, 1000.0)
-POOL_N = {"quick": 48, "thorough": 160}
+POOL_N = {"quick": 40, "thorough": 144}
+N_TWINS = 8  # near-duplicate partners appended to the pool (see _pool)
 POISON_LAT = 0.123456789  # marker latitude for which the poisoned cloud function raises
-CLOUD_KINDS = ("none", "const2", "const8", "const15", "const70", "repo-nocloud", "repo-mono", "repo-pmap")
+CLOUD_KINDS = ("none", "const2", "const8", "const70", "repo-mono", "repo-pmap")
 
 
 class InjectedKernelFault(Exception):
     pass
+
+
+# the exception *type* of an injected failure is part of the fault space: StopIteration, for
+# one, is swallowed by the builtin map() dask.bag runs the kernel under
+POISON_EXC = (InjectedKernelFault, StopIteration, FloatingPointError, OSError, KeyError)
+# natural failures: inputs for which evaluating the event one at a time raises (the oracle
+# decides; if it returns, the value must simply match)
+NATURAL = ("E:nan", "E:inf", "E:neg", "alt:nan", "beta:nan", "alt:66", "E:zero")
 
 
 class ConstCloud:
@@ -34,12 +43,13 @@ class ConstCloud:
 class PoisonCloud:
     """Wraps a cloud function; raises for the marker latitude (fault kind 'poison-cloud')."""
 
-    def __init__(self, inner):
+    def __init__(self, inner, exc=InjectedKernelFault):
         self.inner = inner
+        self.exc = exc
 
     def __call__(self, lat, long):
         if lat == POISON_LAT:
-            raise InjectedKernelFault("injected failure while evaluating one event")
+            raise self.exc("injected failure while evaluating one event")
         return self.inner(lat, long) if self.inner else -np.inf
 
 
@@ -71,6 +81,28 @@ def _pool(tier):
         lat = rng.uniform(-1.5, 1.5)
         lon = rng.uniform(-3.1, 3.1)
         ev.append((b, a, e, lat, lon))
+    # near-duplicate partners: the same event with one coordinate moved by a little less than
+    # one float32 spacing, both values rounding to the same float32 (this code base computes in
+    # float32: a cache keyed on a rounded coordinate confuses exactly such events; exact repeats
+    # are harmless, and a difference far below float32 resolution changes no output bit)
+    def straddle(x, sign):
+        x32 = np.float32(x)
+        return float(np.float64(x32) + sign * 0.45 * float(np.spacing(x32)))
+
+    for t in range(N_TWINS):
+        b, a, e, lat, lon = ev[16 + t]
+        w = t % 4
+        if w in (0, 1):
+            if a <= 0.0 or a >= 20.0:
+                a = 7.5 + t
+            ev[16 + t] = (b, straddle(a, -1), e, lat, lon)
+            ev.append((b, straddle(a, +1), e, lat, lon))
+        elif w == 2:
+            ev[16 + t] = (b, a, straddle(e, -1), lat, lon)
+            ev.append((b, a, straddle(e, +1), lat, lon))
+        else:
+            ev[16 + t] = (straddle(b, -1), a, e, lat, lon)
+            ev.append((straddle(b, +1), a, e, lat, lon))
     _POOLS[key] = ev
     return ev
 
@@ -103,30 +135,52 @@ def _bits(x):
 
 
 def _seq(det_alt, kind, tier, i):
-    """The reference: one event at a time on a fresh object, no scheduler involved."""
+    """The reference: pool event i one at a time on a fresh object, no scheduler involved.
+    ('ok', d, c) or ('exc', exception type name)."""
     key = (det_alt, kind, tier, i)
     if key not in _MEMO:
-        from nuspacesim.simulation.eas_optical.cphotang import CphotAng
-
-        ev = _pool(tier)[i]
-        st = np.random.get_state()
-        np.random.seed(20240917)  # the reference never depends on what ran before it
-        try:
-                r = CphotAng(det_alt).run(np.float64(ev[0]), np.float64(ev[1]), np.float64(ev[2]), np.float64(ev[3]), np.float64(ev[4]), _cloud(kind))
-        finally:
-            np.random.set_state(st)
-        _MEMO[key] = (float(np.float64(r[0])), float(np.float64(r[1])))
+        _MEMO[key] = _eval_one(det_alt, kind, _pool(tier)[i])
     return _MEMO[key]
 
 
-def warmup(tier):
-    env.load()
+def _eval_one(det_alt, kind, ev):
+    """One event, one at a time, on a fresh object.  Returns ('ok', d, c) or ('exc', type name)."""
     from nuspacesim.simulation.eas_optical.cphotang import CphotAng
 
-    CphotAng(525.0).run(0.2, 3.0, 1.0, 0.0, 0.0, None)
+    st = np.random.get_state()
+    np.random.seed(20240917)  # the reference never depends on what ran before it
+    try:
+        fresh = CphotAng(det_alt)
+        try:
+            if hasattr(fresh, "run"):
+                r = fresh.run(np.float64(ev[0]), np.float64(ev[1]), np.float64(ev[2]), np.float64(ev[3]), np.float64(ev[4]), _cloud(kind))
+            else:
+                import dask
+
+                with dask.config.set(scheduler="synchronous"):
+                    d, c = fresh(*[np.array([np.float64(x)]) for x in ev], _cloud(kind))
+                r = (np.asarray(d).reshape(-1)[0], np.asarray(c).reshape(-1)[0])
+        except BaseException as e:  # noqa: BLE001
+            return ("exc", type(e).__name__)
+        return ("ok", float(np.float64(r[0])), float(np.float64(r[1])))
+    finally:
+        np.random.set_state(st)
+
+
+def warmup(tier):
+    """Besides imports: the whole oracle table, in one fixed order, from the freshly imported
+    state.  Every pool worker and every replay computes the same table the same way, so the
+    reference cannot depend on which runs a process has seen."""
+    env.load()
     import dask.bag  # noqa
     import dask.multiprocessing  # noqa
     import dask.threaded  # noqa
+
+    pool = _pool(tier)
+    for det_alt in DET_ALTS:
+        for kind in CLOUD_KINDS:
+            for i in range(len(pool)):
+                _seq(det_alt, kind, tier, i)
 
 
 def _draw_batch(ctx, tier, knob_on):
@@ -145,36 +199,60 @@ def _draw_batch(ctx, tier, knob_on):
     return idx, psize
 
 
+def _poisoned_event(ev, poison_kind):
+    ev = list(ev)
+    if poison_kind.startswith("cloud:"):
+        ev[3] = POISON_LAT
+    else:
+        field, what = poison_kind.split(":")
+        k = {"beta": 0, "alt": 1, "E": 2}[field]
+        ev[k] = {"nan": float("nan"), "inf": float("inf"), "neg": -abs(ev[k]) - 1.0, "66": 66.0, "zero": 0.0}[what]
+    return tuple(ev)
+
+
 def _arrays(tier, idx, poison_pos=None, poison_kind=None):
     pool = _pool(tier)
     ev = [list(pool[i]) for i in idx]
     if poison_pos is not None:
-        if poison_kind == "alt66":
-            ev[poison_pos][1] = 66.0
-        else:
-            ev[poison_pos][3] = POISON_LAT
+        ev[poison_pos] = list(_poisoned_event(ev[poison_pos], poison_kind))
     a = np.array(ev, dtype=np.float64).reshape(len(idx), 5)
     return tuple(np.ascontiguousarray(a[:, k]) for k in range(5))
 
 
-def _compare(check, res, det_alt, kind, tier, idx):
+def _expected(det_alt, kind, tier, idx, override=None):
+    """Per position: ('ok', d, c) | ('exc', name).  override: {position: reference tuple}."""
+    exp = [_seq(det_alt, kind, tier, i) for i in idx]
+    for k, v in (override or {}).items():
+        exp[k] = v
+    return exp
+
+
+def _compare(check, res, det_alt, kind, tier, idx, override=None):
     d, c = res
     d = np.asarray(d)
     c = np.asarray(c)
     n = len(idx)
     if d.ndim != 1 or c.ndim != 1 or d.shape[0] != n or c.shape[0] != n:
         raise Violation(f"{check}.length", f"batch of {n} events returned shapes {d.shape} and {c.shape}", sig="CphotAng.__call__")
-    exp = [_seq(det_alt, kind, tier, i) for i in idx]
-    ed = _bits([e[0] for e in exp])
-    ec = _bits([e[1] for e in exp])
+    exp = _expected(det_alt, kind, tier, idx, override)
+    failing = [k for k, e in enumerate(exp) if e[0] == "exc"]
+    if failing:
+        raise Violation(
+            "c10.fault_not_surfaced",
+            f"the event at position {failing[0]} of {n} raises {exp[failing[0]][1]} when evaluated one at a time, but the batch call returned a value",
+            sig="CphotAng.__call__",
+        )
+    ed = _bits([e[1] for e in exp])
+    ec = _bits([e[2] for e in exp])
     bd, bc = _bits(d), _bits(c)
-    bad = np.nonzero((bd != ed) | (bc != ec))[0]
+    nan_ok = (np.isnan(np.asarray(d, dtype=np.float64)) & np.isnan([e[1] for e in exp])) , (np.isnan(np.asarray(c, dtype=np.float64)) & np.isnan([e[2] for e in exp]))
+    bad = np.nonzero(((bd != ed) & ~nan_ok[0]) | ((bc != ec) & ~nan_ok[1]))[0]
     if bad.size:
         k = int(bad[0])
         raise Violation(
             f"{check}.bits",
             f"event at position {k} of {n} (pool #{idx[k]}): batch gave ({float(d[k])!r}, {float(c[k])!r}), "
-            f"one-at-a-time gives {exp[k]!r}; {bad.size} position(s) differ",
+            f"one-at-a-time gives {exp[k][1:]!r}; {bad.size} position(s) differ",
             sig="CphotAng.__call__",
             detail={"positions": [int(b) for b in bad[:20]]},
         )
@@ -193,14 +271,25 @@ def _one_batch(ctx, tier, det_alt, obj, kind, allow_faults, tag):
         world._free = list(range(world.workers))
         world.cfg["stragglers"] = {w for w in world.cfg["stragglers"] if w < world.workers}
     poison_pos = poison_kind = None
+    override = {}
+    must_raise = False
+    cloudf = _cloud(kind)
     if allow_faults and world.cfg["fault"] is None:
         pk = ch.draw(3, "poison")
-        if pk:
-            poison_kind = ("", "alt66", "cloud")[pk]
+        if pk == 1:  # an exception of a seeded type raised while one event is evaluated
+            exc_t = POISON_EXC[ch.draw(len(POISON_EXC), "poison_exc")]
+            poison_kind = "cloud:" + exc_t.__name__
             poison_pos = ch.draw(n, "poison_pos")
-    cloudf = _cloud(kind)
-    if poison_kind == "cloud":
-        cloudf = PoisonCloud(cloudf)
+            cloudf = PoisonCloud(cloudf, exc_t)
+            must_raise = True
+        elif pk == 2:  # a natural failure: an input for which one-at-a-time evaluation raises
+            poison_kind = NATURAL[ch.draw(len(NATURAL), "poison_input")]
+            poison_pos = ch.draw(n, "poison_pos")
+            ref = _eval_one(det_alt, kind, _poisoned_event(_pool(tier)[idx[poison_pos]], poison_kind))
+            override = {poison_pos: ref}
+            must_raise = ref[0] == "exc"
+            if not must_raise:
+                ctx.probes["unusual_input_evaluates:" + poison_kind] += 1
     args = _arrays(tier, idx, poison_pos, poison_kind)
     before = [a.tobytes() for a in args]
     npart = math.ceil(n / (psize or 100))
@@ -224,7 +313,7 @@ def _one_batch(ctx, tier, det_alt, obj, kind, allow_faults, tag):
     if [a.tobytes() for a in args] != before:
         ctx.probes["batch_arguments_modified"] += 1
     fired = list(world.fired)
-    if poison_kind:
+    if poison_kind and must_raise:
         fired.append("poison-" + poison_kind)
     for f in fired:
         ctx.faults[f] += 1
@@ -243,7 +332,7 @@ def _one_batch(ctx, tier, det_alt, obj, kind, allow_faults, tag):
         ctx.probes["literal_partition_size_100"] += 1
     if npart >= 2 and (world.reordered() or world.context_switches or fired):
         ctx.nontrivial = True
-    return res, exc, fired, idx, world
+    return res, exc, fired, idx, world, override
 
 
 def scn_faultfree(ctx):
@@ -258,7 +347,7 @@ def scn_faultfree(ctx):
     nb = 1 + ch.draw(2, "second_batch")
     for b in range(nb):
         tag = f"b{b}"
-        res, exc, fired, idx, world = _one_batch(ctx, tier, det_alt, obj, kind, False, tag)
+        res, exc, fired, idx, world, _ = _one_batch(ctx, tier, det_alt, obj, kind, False, tag)
         if exc is not None:
             raise Violation(
                 "c10.raised_without_fault",
@@ -266,7 +355,7 @@ def scn_faultfree(ctx):
                 sig="CphotAng.__call__",
             )
         _compare("c10" if b == 0 else "c10.second_batch", res, det_alt, kind, tier, idx)
-        zero = sum(1 for i in idx if _seq(det_alt, kind, tier, i) == (0.0, 0.0))
+        zero = sum(1 for i in idx if _seq(det_alt, kind, tier, i) == ("ok", 0.0, 0.0))
         if zero:
             ctx.probes["early_return_events"] += zero
 
@@ -281,7 +370,7 @@ def scn_faults(ctx):
     det_alt = DET_ALTS[ch.draw(3, "det_alt")]
     kind = CLOUD_KINDS[ch.draw(len(CLOUD_KINDS), "cloud")]
     obj = CphotAng(det_alt)
-    res, exc, fired, idx, world = _one_batch(ctx, tier, det_alt, obj, kind, True, "f0")
+    res, exc, fired, idx, world, override = _one_batch(ctx, tier, det_alt, obj, kind, True, "f0")
     if fired:
         if exc is None:
             raise Violation(
@@ -297,9 +386,9 @@ def scn_faults(ctx):
                 f"batch raised {type(exc).__name__}: {exc} although no fault fired",
                 sig="CphotAng.__call__",
             )
-        _compare("c10", res, det_alt, kind, tier, idx)
+        _compare("c10", res, det_alt, kind, tier, idx, override)
     # bounded liveness: one call after faults stop
-    res, exc, fired2, idx, world = _one_batch(ctx, tier, det_alt, obj, kind, False, "f1")
+    res, exc, fired2, idx, world, _ = _one_batch(ctx, tier, det_alt, obj, kind, False, "f1")
     if exc is not None:
         raise Violation(
             "c10.no_recovery",
@@ -331,7 +420,7 @@ def scn_real(ctx):
     idx = [(start + k) % len(pool) for k in range(n)]
     poison = ch.draw(4, "poison") == 3
     ppos = ch.draw(n, "poison_pos") if poison else None
-    args = _arrays(tier, idx, ppos, "alt66" if poison else None)
+    args = _arrays(tier, idx, ppos, "alt:66" if poison else None)
     ctx.log(f"real scheduler={name} workers={nw} N={n} det_alt={det_alt:g} cloud={kind} poison@{ppos}")
     ctx.describe.update(real_scheduler=name, workers=nw, N=n, cloud=kind, det_alt=det_alt, poison_pos=ppos)
     ctx.probes[f"real_{name}"] += 1
@@ -365,7 +454,7 @@ def scn_real(ctx):
 
     v = verdict()
     if poison:
-        ctx.faults["poison-alt66"] += 1
+        ctx.faults["poison-alt:66"] += 1
     ctx.nontrivial = n > 100 or nw > 1
     if v is not None:
         again = sum(1 for _ in range(5) if verdict() is not None)
